@@ -38,12 +38,13 @@ type rules struct{ net, sync, gostmt, chans, rand, time, fine bool }
 
 var pkgs = map[string]rules{
 	"cmd/rdpgw/protocol":  {net: true, sync: true, gostmt: true, chans: true, time: true},
-	"cmd/rdpgw/kdcproxy":  {net: true, sync: true, gostmt: true, chans: true},
-	"cmd/rdpgw/transport": {sync: true, gostmt: true, chans: true},
-	"cmd/rdpgw/web":       {rand: true, fine: true},
-	"cmd/rdpgw/security":  {time: true, fine: true},
-	"cmd/rdpgw/identity":  {fine: true},
-	"cmd/rdpgw/rdp":       {fine: true},
+	"cmd/rdpgw/kdcproxy":  {net: true, sync: true, gostmt: true, chans: true, time: true},
+	"cmd/rdpgw/transport": {sync: true, gostmt: true, chans: true, time: true},
+	"cmd/rdpgw/web":       {rand: true, fine: true, sync: true, gostmt: true, chans: true},
+	"cmd/rdpgw/security":  {time: true, fine: true, sync: true, gostmt: true, chans: true},
+	"cmd/rdpgw/identity":  {fine: true, sync: true, gostmt: true, chans: true},
+	"cmd/rdpgw/rdp":       {fine: true, sync: true, gostmt: true, chans: true},
+	"cmd/auth/ntlm":       {fine: true, sync: true, gostmt: true, chans: true},
 }
 
 func die(format string, a ...any) {
@@ -219,12 +220,52 @@ func rewrite(name string, src []byte, r rules) ([]byte, bool) {
 			// that contains no other candidate is found by preferring later,
 			// smaller spans.
 			var best ast.Node
+			// receives in `v, ok := <-ch` form, and the communication statements of select clauses (rewritten
+			// together with their select statement)
+			commaOk := map[ast.Node]bool{}
+			inComm := func(n ast.Node) bool { return false }
+			var comms []ast.Node
+			ast.Inspect(f, func(n ast.Node) bool {
+				switch v := n.(type) {
+				case *ast.AssignStmt:
+					if len(v.Lhs) == 2 && len(v.Rhs) == 1 {
+						if u, ok := unparen(v.Rhs[0]).(*ast.UnaryExpr); ok && u.Op == token.ARROW {
+							commaOk[u] = true
+						}
+					}
+				case *ast.ValueSpec:
+					if len(v.Names) == 2 && len(v.Values) == 1 {
+						if u, ok := unparen(v.Values[0]).(*ast.UnaryExpr); ok && u.Op == token.ARROW {
+							commaOk[u] = true
+						}
+					}
+				case *ast.CommClause:
+					if v.Comm != nil {
+						comms = append(comms, v.Comm)
+					}
+				}
+				return true
+			})
+			inComm = func(n ast.Node) bool {
+				for _, c := range comms {
+					if contains(c, n) {
+						return true
+					}
+				}
+				return false
+			}
 			ast.Inspect(f, func(n ast.Node) bool {
 				switch v := n.(type) {
 				case *ast.SelectStmt:
-					for _, c := range v.Body.List {
-						if cc, ok := c.(*ast.CommClause); ok && cc.Comm != nil && r.chans {
-							die("%s:%d: select with communication clause is not modelled", name, fset.Position(v.Pos()).Line)
+					if r.chans {
+						if best == nil || contains(best, v) {
+							best = v
+						}
+					}
+				case *ast.CallExpr:
+					if id, ok := v.Fun.(*ast.Ident); ok && id.Name == "close" && len(v.Args) == 1 && r.chans {
+						if best == nil || contains(best, v) {
+							best = v
 						}
 					}
 				case *ast.GoStmt:
@@ -234,13 +275,13 @@ func rewrite(name string, src []byte, r rules) ([]byte, bool) {
 						}
 					}
 				case *ast.SendStmt:
-					if r.chans {
+					if r.chans && !inComm(v) {
 						if best == nil || contains(best, v) {
 							best = v
 						}
 					}
 				case *ast.UnaryExpr:
-					if r.chans && v.Op == token.ARROW {
+					if r.chans && v.Op == token.ARROW && !inComm(v) {
 						if best == nil || contains(best, v) {
 							best = v
 						}
@@ -283,7 +324,17 @@ func rewrite(name string, src []byte, r rules) ([]byte, bool) {
 					ed = &edit{off(v.Pos()), off(v.End()), fmt.Sprintf("vsched.ChanSend(%s, %s)", text(v.Chan), text(v.Value))}
 					needSched = true
 				case *ast.UnaryExpr:
-					ed = &edit{off(v.Pos()), off(v.End()), fmt.Sprintf("vsched.ChanRecv(%s)", text(v.X))}
+					fn := "ChanRecv"
+					if commaOk[v] {
+						fn = "ChanRecv2"
+					}
+					ed = &edit{off(v.Pos()), off(v.End()), fmt.Sprintf("vsched.%s(%s)", fn, text(v.X))}
+					needSched = true
+				case *ast.CallExpr:
+					ed = &edit{off(v.Pos()), off(v.End()), fmt.Sprintf("vsched.ChanClose(%s)", text(v.Args[0]))}
+					needSched = true
+				case *ast.SelectStmt:
+					ed = &edit{off(v.Pos()), off(v.End()), selectText(name, fset, src, v)}
 					needSched = true
 				}
 			}
@@ -366,6 +417,80 @@ func insertYields(name string, src []byte) ([]byte, int) {
 		out = append(out[:offs[i]], append(ins, out[offs[i]:]...)...)
 	}
 	return out, len(offs)
+}
+
+func unparen(e ast.Expr) ast.Expr {
+	for {
+		p, ok := e.(*ast.ParenExpr)
+		if !ok {
+			return e
+		}
+		e = p.X
+	}
+}
+
+// selectText turns a select statement into a block that registers one case object per communication clause,
+// asks the scheduler which clause proceeds, and switches on the answer. Clause bodies are kept as they are.
+func selectText(name string, fset *token.FileSet, src []byte, s *ast.SelectStmt) string {
+	off := func(p token.Pos) int { return fset.Position(p).Offset }
+	text := func(n ast.Node) string { return string(src[off(n.Pos()):off(n.End())]) }
+	var decls, args, clauses []string
+	hasDefault := false
+	k := 0
+	for _, c := range s.Body.List {
+		cc := c.(*ast.CommClause)
+		body := string(src[off(cc.Colon)+1 : off(cc.End())])
+		if cc.Comm == nil {
+			hasDefault = true
+			clauses = append(clauses, "default:"+body)
+			continue
+		}
+		v := fmt.Sprintf("vsC%d", k)
+		bind := ""
+		switch st := cc.Comm.(type) {
+		case *ast.SendStmt:
+			decls = append(decls, fmt.Sprintf("%s := vsched.SendCase(%s, %s)", v, text(st.Chan), text(st.Value)))
+		case *ast.ExprStmt:
+			u, ok := unparen(st.X).(*ast.UnaryExpr)
+			if !ok || u.Op != token.ARROW {
+				die("%s:%d: select clause not understood", name, fset.Position(cc.Pos()).Line)
+			}
+			decls = append(decls, fmt.Sprintf("%s := vsched.RecvCase(%s)", v, text(u.X)))
+		case *ast.AssignStmt:
+			u, ok := unparen(st.Rhs[0]).(*ast.UnaryExpr)
+			if !ok || u.Op != token.ARROW || len(st.Rhs) != 1 {
+				die("%s:%d: select clause not understood", name, fset.Position(cc.Pos()).Line)
+			}
+			decls = append(decls, fmt.Sprintf("%s := vsched.RecvCase(%s)", v, text(u.X)))
+			var lhs []string
+			for _, l := range st.Lhs {
+				lhs = append(lhs, text(l))
+			}
+			rhs := v + ".Val"
+			if len(lhs) == 2 {
+				rhs += ", " + v + ".Ok"
+			}
+			bind = fmt.Sprintf(" %s %s %s;", strings.Join(lhs, ", "), st.Tok.String(), rhs)
+		default:
+			die("%s:%d: select clause not understood", name, fset.Position(cc.Pos()).Line)
+		}
+		args = append(args, v)
+		clauses = append(clauses, fmt.Sprintf("case %d:%s%s", k, bind, body))
+		k++
+	}
+	tail := string(src[off(s.Body.List[len(s.Body.List)-1].End()):off(s.Body.Rbrace)])
+	if len(s.Body.List) == 0 {
+		tail = ""
+	}
+	hd := "{ "
+	for _, d := range decls {
+		hd += d + "; "
+	}
+	if !hasDefault {
+		// keeps the statement terminating where the select statement was (a select without default never falls through)
+		clauses = append(clauses, "default: panic(\"select without a default clause fell through\")")
+	}
+	return hd + fmt.Sprintf("switch vsched.Select(%v%s) { ", hasDefault, strings.Join(append([]string{""}, args...), ", ")) + strings.Join(clauses, "\n") + tail + "} }"
 }
 
 func contains(outer, inner ast.Node) bool {
